@@ -250,6 +250,22 @@ def bfs(problem, driver, cid, stats=None, batch=256, max_states=None, deadline=N
     return stats, violations
 
 
+def render_robust(driver, cid, inputs, trace=False, trace_from=0, timeout=None):
+    """render a batch; if the driver hangs or dies, render one by one and return the exception
+    object in place of the result for the culprit(s)"""
+    try:
+        return driver.render(cid, inputs, trace=trace, trace_from=trace_from, timeout=timeout)
+    except (Hang, DriverDied):
+        out = []
+        for inp in inputs:
+            try:
+                out.append(driver.render(cid, [inp], trace=trace, trace_from=trace_from,
+                                         timeout=timeout or 5.0)[0])
+            except (Hang, DriverDied) as e:
+                out.append(e)
+        return out
+
+
 # ---------------------------------------------------------------------------------------------
 # parallel map over independent tasks, each worker process owning its drivers
 
